@@ -578,14 +578,22 @@ def install_quad_stub():
     def integral(fun, a, b, *args, **kw):
         owner = getattr(fun, "__self__", None)
         if symrun.symbolic_active() and owner is not None:
+            if getattr(fun, "__name__", "") in ("cor", "cor_from_correlation"):
+                # the normalised correlation cor(h) depends on h and the optional arguments only (C03, first
+                # clause; lower cut-off 0 for the truncated power law models in these contracts): its integral
+                # is a positive number I(optional arguments); the code multiplies it by len_scale / rescale
+                unit = symrun.uf("quad_normcor_" + type(owner).__name__, 1,
+                                 *[getattr(owner, k) for k in owner.opt_arg])
+                symrun.CUR.add_assume(unit.t > 0)
+                return (unit, 0.0)
             unit = symrun.uf("quad_cor_" + type(owner).__name__, 1, owner.rescale,
                              *[getattr(owner, k) for k in owner.opt_arg])
             symrun.CUR.add_assume(unit.t > 0)
             return (owner.len_scale * unit, 0.0)
         return _REAL_QUAD(fun, a, b, *args, **kw)
     B.integral = integral
-    symrun.SHIM_LOG.append("gstools.covmodel.base.integral (scipy quad) -> ghost: integral of the correlation = "
-                           "len_scale * I(rescale, optional arguments), I > 0 uninterpreted")
+    symrun.SHIM_LOG.append("gstools.covmodel.base.integral (scipy quad) -> ghost: integral of the NORMALISED correlation cor = "
+                           "I(optional arguments) > 0 uninterpreted (the code scales it by len_scale / rescale)")
 
 
 @contract(P, "CovModel.__init__[integral_scale]/state",
